@@ -84,7 +84,8 @@ func (muxer *Muxer) Close() error {
 	}
 
 	muxer.closed = true
-	muxer.recvQueue.Signal()
+	// 入列一个 nil 唤醒处理协程；直接 Signal 可能丢失在 closed 检查与 Wait 之间
+	muxer.recvQueue.Push(nil)
 	return nil
 }
 
